@@ -100,11 +100,23 @@ def sanitisers(ctx):
         if len(rets) != 1:
             continue
         c = rets[0].value
-        if not (isinstance(c, ast.Call) and isinstance(c.func, ast.Attribute) and c.func.attr == 'sub'
-                and len(c.args) == 2 and is_name(c.args[1], params(fi)[0])):
+        if not (isinstance(c, ast.Call) and isinstance(c.func, ast.Attribute) and c.func.attr == 'sub'):
             continue
+        # <compiled>.sub(repl, text)   or   re.sub(<compiled / pattern>, repl, text)
+        if m.resolve_dotted(mod, dotted(c.func)) == 're.sub' and len(c.args) == 3 and not c.keywords:
+            recv, r_arg, t_arg = c.args
+        elif len(c.args) == 2:
+            recv, (r_arg, t_arg) = c.func.value, c.args
+        else:
+            continue
+        if not is_name(t_arg, params(fi)[0]):
+            continue
+        if isinstance(r_arg, ast.Name) and r_arg.id in mod.constants:
+            r_arg = mod.constants[r_arg.id]         # a named replacement constant
+        c = ast.Call(func=c.func, args=[r_arg, t_arg], keywords=[])
         pat = None
-        recv = c.func.value
+        if isinstance(recv, ast.Constant) and isinstance(recv.value, str):
+            pat = recv.value
         if isinstance(recv, ast.Name) and recv.id in mod.constants:
             v = mod.constants[recv.id]
             if isinstance(v, ast.Call) and m.resolve_dotted(mod, dotted(v.func)) == 're.compile' and \
@@ -459,7 +471,10 @@ def r4_recorded_once(ctx, rep, R='C17.R4'):
                        not any(k.arg in ('failure', 'error') and k.arg != kwname for k in c.keywords)
                        for c in recs)
         if good and not kwname:
-            good = all(not c.keywords and len(c.args) == 2 for c in recs)
+            # failure=None / error=None written out are the defaults
+            good = all(len(c.args) == 2 and all(
+                k.arg in ('failure', 'error') and isinstance(k.value, ast.Constant) and k.value.value is None
+                for k in c.keywords) for c in recs)
         good = good and all(is_name(c.args[0], params(fi)[1]) for c in recs)
         rep.check(good, R, 'wrapper.%s records the outcome once%s' % (
             meth, ' as ' + kwname if kwname else ''),
@@ -470,7 +485,11 @@ def r4_recorded_once(ctx, rep, R='C17.R4'):
     if ie is not None:
         for lp in [n for n in ast.walk(ie.node) if isinstance(n, ast.For)]:
             recs = [c for c in ast.walk(lp) if isinstance(c, ast.Call) and dotted(c.func) == 'self._record']
-            if len(recs) == 1 and is_name(lp.iter, params(ie)[1]) and kw(recs[0], 'error') is not None \
+            it_ = lp.iter
+            if isinstance(it_, ast.BoolOp) and isinstance(it_.op, ast.Or) and len(it_.values) == 2 and \
+                    isinstance(it_.values[1], (ast.Tuple, ast.List)) and not it_.values[1].elts:
+                it_ = it_.values[0]             # ``for x in xs or ():`` iterates xs
+            if len(recs) == 1 and is_name(it_, params(ie)[1]) and kw(recs[0], 'error') is not None \
                     and is_name(recs[0].args[0], lp.target.id):
                 ok = True
     rep.check(ok, R, 'wrapper.import_errors records every import failure as an error',
